@@ -4,6 +4,7 @@ R19.1: every flavoured rule of the other properties is instantiated on the async
 R19.2: effect-skeleton diff of sibling functions: the set of (effects executed on a path, return
        class) must be equal modulo .await and type renaming, except for a frozen table of accepted
        differences."""
+import re
 from cachelib import *
 from props_cache import count_paths, metric_tick
 
@@ -170,6 +171,10 @@ def ret_class(body, rbi, rsi, e=None):
     if e[0] == "const":
         return "const %s" % e[1]
     if is_call(e, "FromResidual::from_residual"):
+        # `x?` in a function that returns an Option hands back None: the same return as `match x { None => None, .. }`
+        rty = str(body.locals[0].get("ty", "")) if body.locals else ""
+        if re.match(r"(std::|core::)?(option::)?Option<", rty):
+            return "value"
         return "Err"
     return "value"
 
